@@ -9,6 +9,7 @@ import (
 
 	"verif/mc/bind"
 	"verif/mc/core"
+	"verif/mc/gen"
 	"verif/mc/spec"
 )
 
@@ -113,7 +114,7 @@ func c01Exec(c *pcase) (*core.Finding, bool) {
 		return mk("type-changed", fmt.Sprintf("read back as %T", r)), true
 	}
 	obs, notes := bind.Observe(r)
-	diff := spec.Diff(spec.Normalise(p), spec.Normalise(obs))
+	diff := spec.Diff(spec.Normalise(gen.WireView(p)), spec.Normalise(obs))
 	diff = append(diff, notes...)
 	if len(diff) > 0 {
 		return mk("field:"+diffClass(diff), fmt.Sprintf("after write+read: %s (frame %s)", strings.Join(clipList(diff, 4), "; "), abbrevHex(f1))), true
